@@ -213,6 +213,18 @@ def run(ctx):
     _r7_rekeying(ctx)
 
 
+def _is_keytype_slot(F, fi, f):
+    """The callee expression is the `keytype` slot of some object: written
+    out, or through a local bound to it."""
+    if isinstance(f, ast.Attribute):
+        return f.attr == "keytype"
+    if isinstance(f, ast.Name) and fi is not None:
+        binds = [v for v, how in F._assignments(fi, f.id) if how == "plain"]
+        return bool(binds) and all(isinstance(v, ast.Attribute)
+                                   and v.attr == "keytype" for v in binds)
+    return False
+
+
 def _r7_rekeying(ctx):
     """C11.R7: 'inheriting key type ... unless overridden'.  A table of a
     section type whose keys are produced by the type's key type (found by
@@ -241,11 +253,10 @@ def _r7_rekeying(ctx):
                                 n.value.value, ast.Name) \
                         and n.value.value.id == selfn \
                         and not isinstance(n.slice, ast.Slice):
-                    for o in F.origins(fn, n.slice, depth=10):
+                    for o in F.origins(fn, n.slice, depth=16):
                         if o.kind == "call" and isinstance(
-                                o.node, ast.Call) and isinstance(
-                                    o.node.func, ast.Attribute) \
-                                and o.node.func.attr == "keytype":
+                                o.node, ast.Call) and _is_keytype_slot(
+                                    F, o.fi, o.node.func):
                             keyed.setdefault(n.value.attr, set()).add(
                                 "%s: %s" % (o.fi.qualname if o.fi else "?",
                                             src(o.node)))
